@@ -578,10 +578,8 @@ Proof.
     assert (Hwin : forall x, x < nthr s -> tkey (thr s x) = Some k -> leaderpc (tpc (thr s x)) = true ->
                    tpc (thr s id) = RCas -> tkey (thr s id) = Some k -> leaderpc (tpc (e_self e)) = true -> False).
     { intros x Hx Hkx Hlx Hcas Hkid Hle. destruct (u_leader _ _ (j_thr _ Hj x Hx) k Hkx Hlx) as [A _].
-      destruct (step_mem s id e Hi Hid Hl) as [(B1 & B2 & B3)|[(k0 & B1 & B2 & B3 & _)|[(d & _ & _ & _ & _)|[(o0 & path & B & _)|(k0 & B1 & B2 & _)]]]]; try congruence.
-      - clear - Hl Hcas Hle A Hkid B1. unfold step_local in Hl. cbv zeta in Hl. rewrite Hcas, Hkid, A in Hl.
-        inversion Hl; subst e. cbn in Hle. discriminate.
-      - assert (k0 = k) as -> by congruence. eapply B3. eassumption. }
+      clear - Hl Hcas Hle A Hkid. unfold step_local in Hl. cbv zeta in Hl. rewrite Hcas, Hkid, A in Hl.
+      inversion Hl; subst e. cbn in Hle. discriminate. }
     destruct (Nat.eq_dec a id) as [->|Hai]; destruct (Nat.eq_dec b id) as [->|Hbi]; try reflexivity.
     + rewrite Tself in Hla. exfalso. destruct (L2 Hla) as [Q|Q].
       * apply Hbi. apply (j_uniq _ Hj b id k); auto.
@@ -590,6 +588,78 @@ Proof.
       * apply Hai. apply (j_uniq _ Hj a id k); auto.
       * eapply (Hwin a); eauto.
     + apply (j_uniq _ Hj a b k); auto.
+Qed.
+
+
+Lemma inv2_start_run s ks : inv1 w par s -> inv2 s -> inv2 (start_run s ks).
+Proof.
+  intros Hi Hj. set (s' := start_run s ks).
+  assert (Hnew : thr s' (nthr s) = root_thread (S (nrun s))) by (unfold s', start_run; cbn; apply upd_same).
+  assert (Hoth : forall x, x < nthr s -> thr s' x = thr s x) by (intros x Hx; unfold s', start_run; cbn; apply upd_other; lia).
+  assert (Hgr : forall x, x < nthr s -> groups w s' x = groups w s x) by (intros; apply groups_start_run; assumption).
+  constructor; try apply Hj.
+  - intros x Hx. change (nthr s') with (S (nthr s)) in Hx. destruct (Nat.eq_dec x (nthr s)) as [->|Hxn].
+    + constructor; unfold cur_group, acc_index; rewrite Hnew; cbn; try discriminate; try reflexivity;
+        try (intros; discriminate); try (intros; lia); try (intros; contradiction).
+    + assert (Hx' : x < nthr s) by lia. pose proof (j_thr _ Hj x Hx') as Hu.
+      constructor; unfold cur_group, acc_index; rewrite ?Hoth, ?Hgr by assumption; apply Hu.
+  - intros k o Hk Hc. destruct (j_leader _ Hj k o Hk Hc) as (l & L1 & L2 & L3 & L4).
+    exists l. change (nthr s') with (S (nthr s)). rewrite Hoth by assumption. split; [lia|auto].
+  - intros a b k Ha Hb Hka Hkb Hla Hlb. change (nthr s') with (S (nthr s)) in *.
+    destruct (Nat.eq_dec a (nthr s)) as [->|Han]; [rewrite Hnew in Hka; discriminate|].
+    destruct (Nat.eq_dec b (nthr s)) as [->|Hbn]; [rewrite Hnew in Hkb; discriminate|].
+    rewrite Hoth in * by lia. apply (j_uniq _ Hj a b k); auto; lia.
+Qed.
+
+Lemma inv2_quiet s s' : inv2 s -> quiescent s = true ->
+  thr s' = thr s -> nthr s' = nthr s -> objs s' = objs s -> nobj s' = nobj s ->
+  (forall k, (tmap s' k = TAbsent /\ nexec s' k = 0) \/ (tmap s' k = tmap s k /\ nexec s' k = nexec s k)) ->
+  inv2 s'.
+Proof.
+  intros Hj Hq Ht Hn Ho Hno Hm. pose proof (quiescent_ended s Hq) as He.
+  assert (Hsub : forall k o, tmap s' k = TRes o -> tmap s k = TRes o).
+  { intros k o Hk. destruct (Hm k) as [[A _]|[A _]]; congruence. }
+  constructor.
+  - intros x Hx. rewrite Hn in Hx. specialize (He x Hx).
+    constructor; unfold cur_group, acc_index; rewrite Ht; destruct (tpc (thr s x)); try discriminate;
+      cbn; try (intros; discriminate); try (intros; contradiction); try apply (j_thr _ Hj x Hx).
+  - intros k o Hk. rewrite Hno. apply (j_bound _ Hj k o). auto.
+  - intros k o Hk Hc. rewrite Ho in Hc. destruct (j_leader _ Hj k o (Hsub _ _ Hk) Hc) as (l & L1 & L2 & L3 & L4).
+    specialize (He l L1). destruct (tpc (thr s l)); discriminate.
+  - intros k. destruct (Hm k) as [[A B]|[A B]]; rewrite A, B; [reflexivity|apply (j_nexec _ Hj)].
+  - intros k o Hk. rewrite Ho. apply (j_ocanc _ Hj k o). auto.
+  - intros k k' o Hk Hk'. apply (j_inj _ Hj k k' o); auto.
+  - intros a b k Ha _ _ _ Hla _. rewrite Hn in Ha. rewrite Ht in Hla. specialize (He a Ha).
+    destruct (tpc (thr s a)); discriminate.
+Qed.
+
+Lemma inv2_event s e s' : inv1 w par s -> inv2 s -> do_event w s e = Some s' -> inv2 s'.
+Proof.
+  intros Hi Hj H. destruct e as [t|ks|ks|ks vs]; cbn [do_event] in H.
+  - eapply inv2_step; eassumption.
+  - destruct (forallb (fun k => Nat.ltb k (wn w)) ks); inversion H. apply inv2_start_run; assumption.
+  - destruct (quiescent s) eqn:Hq; inversion H. eapply inv2_quiet; try eassumption; try reflexivity.
+    intros k. unfold evict; cbn. destruct (memb k (evict_set w s ks)); auto.
+  - destruct (quiescent s) eqn:Hq; inversion H. eapply inv2_quiet; try eassumption; try reflexivity.
+    intros k. unfold evict; cbn. destruct (memb k _); auto.
+Qed.
+
+Lemma inv2_init inputs : inv2 (init par inputs).
+Proof.
+  constructor; cbn; try (intros; lia); try (intros; discriminate); try reflexivity.
+Qed.
+
+Lemma reach_inv2 inputs s : reach w par inputs s -> inv1 w par s /\ inv2 s.
+Proof.
+  induction 1 as [|s e s' Hr [IH1 IH2] He].
+  - split; [apply inv1_init|apply inv2_init].
+  - split; [eapply inv1_event; eassumption|eapply inv2_event; eassumption].
+Qed.
+
+(* ---- C33: at most one execution of a key between two evictions of it ---- *)
+Theorem at_most_once inputs s k : reach w par inputs s -> nexec s k <= 1.
+Proof.
+  intros Hr. destruct (reach_inv2 _ _ Hr) as [_ Hj]. rewrite (j_nexec _ Hj k). destruct (tmap s k); lia.
 Qed.
 
 End Inv2.
